@@ -40,6 +40,9 @@ type CtxPlan struct {
 	// NoDeadlines (scenarios in which the hello arrives): the transport's
 	// Set*Deadline calls fail with ErrUnsupported and have no effect.
 	NoDeadlines bool `json:"no_deadlines,omitempty"`
+	// Parked: that many other connections of the process sit in NewConn with
+	// silent clients while the repetitions run (more than there are processors).
+	Parked int `json:"parked,omitempty"`
 	// SecondConn: while this connection's context ends another connection of the
 	// process is parked in its own NewConn.
 	SecondConn bool `json:"second_conn,omitempty"`
@@ -110,6 +113,22 @@ func executeCtx(t *testing.T, prop string, seed uint64, p *CtxPlan) *core.Result
 	stage := "start"
 	msg := core.Bubble(t, func(t *testing.T) {
 		w := simnet.NewWorld(seed)
+		var parkedCancel []context.CancelFunc
+		var parkedDone []chan struct{}
+		for i := 0; i < p.Parked; i++ {
+			_, pf := w.Pipe(fmt.Sprintf("pc%d", i), fmt.Sprintf("pf%d", i), simnet.LinkCfg{Seg: simnet.SegWhole}, simnet.LinkCfg{Seg: simnet.SegWhole})
+			pctx, pcancel := context.WithCancel(context.Background())
+			d := make(chan struct{})
+			parkedCancel, parkedDone = append(parkedCancel, pcancel), append(parkedDone, d)
+			go func() {
+				defer close(d)
+				core.Guard(func() { ech.NewConn(pctx, pf, keyOptions(b.keys)...) })
+			}()
+		}
+		if p.Parked > 0 {
+			synctest.Wait()
+			res.Probe("other_connections_parked_in_newconn")
+		}
 		reps := max(1, p.Reps)
 		for rep := 0; rep < reps; rep++ {
 			core.Beat()
@@ -422,6 +441,10 @@ func executeCtx(t *testing.T, prop string, seed uint64, p *CtxPlan) *core.Result
 			cc.Close()
 			log = append(log, fmt.Sprintf("rep %v", nerr != nil))
 		}
+		for i := range parkedCancel {
+			parkedCancel[i]()
+			<-parkedDone[i]
+		}
 		stage = "teardown"
 		res.SimNs = w.Now()
 		w.Shutdown()
@@ -465,6 +488,9 @@ func genC10(seed uint64, idx int) *Plan {
 	c.LatUs = []int{0, 10, 1000, 50000}[r.IntN(4)]
 	c.HRRLater = (idx/32)%2 == 1
 	c.SecondConn = idx%3 == 1 && (idx/4)%8 < 6
+	if idx%5 == 2 {
+		c.Parked = 20
+	}
 	c.NoDeadlines = (idx/64)%2 == 1 && (idx/4)%8 < 6
 	// the action grid
 	switch (idx / 4) % 8 {
@@ -489,6 +515,13 @@ func genC10(seed uint64, idx int) *Plan {
 			c.Reps = 48
 			if c.Procs == 1 {
 				c.Procs = 4
+			}
+			if (idx/32)%2 == 0 {
+				// many quick repetitions: the cancellation sweeps the return path of
+				// NewConn (a window of a few instructions on another processor)
+				c.Reps = 600
+				c.Buffered, c.Frags, c.LatUs = true, 1, 0
+				c.Spin = []int{2000, 20000, 60000, 150000}[r.IntN(4)]
 			}
 		}
 	case 6, 7:
